@@ -413,6 +413,12 @@ namespace verif {
     }
   };
 
+  // A run that ends in DEADLOCK / STEPCAP leaves actor threads parked inside the engine for ever:
+  // nothing may be destroyed or unwound any more.  run_actors() then calls this handler (installed
+  // by the runner around every execute) which reports the result and _exit()s; it never returns.
+  using FatalHandler = void (*)(RunResult &);
+  FatalHandler &fatal_handler();
+
   // ---------------------------------------------------------------- world registry
   struct World {
     virtual ~World() = default;
